@@ -9,7 +9,7 @@ Props/C46.lean proves model = truth-table semantics for all formulas; the run co
 What is compared: does sat/1 succeed, the answer of taut/2 (0, 1 or failure), the number returned
 by sat_count/2, and the list of labeling/1 solutions as a multiset (exactly the satisfying
 assignments, each once). The ORDER of the labeling solutions is compared only when no two
-labelled variables are equal in all solutions (otherwise clp(B) may have unified them, and which
+variables of the query are equal in all solutions (otherwise clp(B) has unified them, and which
 index the merged variable keeps is not documented).
 """
 import itertools
@@ -331,6 +331,14 @@ def free_vars(fs):
     return vs
 
 
+def alias_free(sat_rows, allv):
+    """no two free variables are equal in every model (clp(B) unifies such variables, also when only
+    one of them is labelled, and which clp(B) index the merged variable keeps is not documented)."""
+    cols = [tuple(env[v] for env in sat_rows) for v in allv if v < 100]
+    nonconst = [c for c in cols if len(set(c)) > 1]
+    return len(set(nonconst)) == len(nonconst)
+
+
 def reference(sc):
     kind, fs = sc["kind"], sc["fs"]
     allv = free_vars(fs)
@@ -340,11 +348,11 @@ def reference(sc):
         n, tot = len(sat_rows), 2 ** len(allv)
         taut = "1" if n == tot else ("0" if n == 0 else "f")
         rows = sorted({tuple(env[v] for v in sc["vs"]) for env in sat_rows})
-        return {"sat": n > 0, "taut": taut, "count": n, "rows": rows}
+        return {"sat": n > 0, "taut": taut, "count": n, "rows": rows, "alias_free": alias_free(sat_rows, allv)}
     if kind == "seq":
         sat_rows = conj_rows(fs, allv)
         rows = sorted({tuple(env[v] for v in sc["vs"]) for env in sat_rows})
-        return {"sat": len(sat_rows) > 0, "rows": rows}
+        return {"sat": len(sat_rows) > 0, "rows": rows, "alias_free": alias_free(sat_rows, allv)}
     a, b = fs
     a_rows = conj_rows([a], allv)
     ab_rows = [env for env in a_rows if ev(b, env)]
@@ -447,13 +455,6 @@ def model_rows(s, width):
     return [() if r == "e" else tuple(c == "1" for c in r) for r in s.split(",")]
 
 
-def order_checkable(rows, width):
-    """no two non-constant columns identical (else clp(B) may have aliased them)."""
-    cols = [tuple(r[i] for r in rows) for i in range(width)]
-    nonconst = [c for c in cols if len(set(c)) > 1]
-    return len(set(nonconst)) == len(nonconst)
-
-
 # ------------------------------------------------------------------ judge
 
 def judge(it, impl, model):
@@ -520,7 +521,7 @@ def judge(it, impl, model):
             what = "duplicate solutions" if sorted(set(rows)) == ref["rows"] else "wrong solution set"
             fnd("violation", "labeling", "labeling/1 does not enumerate exactly the satisfying assignments (%s)" % what,
                 impl=impl.get(sid + "_l"), expected=len(ref["rows"]))
-        elif order_checkable(rows, width):
+        elif ref["alias_free"]:
             flags["order_checked"] = 1
             mrows = model_rows(m.get("lab", "none"), width)
             if rows != mrows:
@@ -576,7 +577,7 @@ def run(ctx):
     else:
         scs = [norm(it) for c in diff.load_corpus("C46") for it in c.get("items", [])]
         scs += FIXED
-        scs += gen_scenarios(rng, 800 if tier == "quick" else 12000)
+        scs += gen_scenarios(rng, 800 if tier == "quick" else 8000)
     cases = [make_case("s%d" % (i // chunk), scs[i:i + chunk]) for i in range(0, len(scs), chunk)]
     errs = error_cases() if rep is None else None
     t0 = time.time()
